@@ -65,7 +65,7 @@ def r02_2(prog, rep):
     for p, r in P.returns(ps):
         bytes_guard = [pol for g, pol in p.guards() if T.is_call_to(g, f"{C.INSP}.isbytestype") and g[2] == (t,)]
         if r[0] != "call":
-            rep.violated("R02.2", f.qualname, f.loc, "codec() does not return a constructed codec", detail="ctor")
+            rep.undecided("R02.2", f.qualname, f.loc, "codec() does not return a constructed codec", detail="ctor")
             continue
         kw = dict(r[3])
         det = "bytes" if bytes_guard == [True] else "json"
